@@ -25,11 +25,16 @@ import (
 // Call is one RPC seen by the backend.
 type Call struct {
 	Seq    int
+	ReqID  string // value of ReqIDKey in the RPC context (set by Env.DoCtx), "" otherwise
 	Method string
 	Req    proto.Message
 	Rsp    proto.Message
 	Err    error
 }
+
+// ReqIDKey is the context key under which a harness tags an HTTP request; the front end hands the
+// request context down to its RPCs, so the backend can tell which request a call belongs to.
+type ReqIDKey struct{}
 
 // Intercept lets a harness replace the honest reply of the n-th RPC (fault injection).
 type Intercept func(seq int, method string, req proto.Message, rsp proto.Message, err error) (proto.Message, error)
@@ -47,14 +52,21 @@ type Backend struct {
 	revision  uint64
 	seq       int
 	Calls     []Call
+	Roots     []Published // every root published by Sequence
 	Intercept Intercept
 	// OnCall, if set, is invoked (without the lock) at the start of every RPC: scheduler gate for concurrent harnesses.
 	OnCall func(method string)
 }
 
+// Published is a root the backend has published.
+type Published struct {
+	Size  int
+	Nanos uint64
+}
+
 // NewBackend creates an empty log whose first root has the given timestamp.
 func NewBackend(logID int64, nanos uint64) *Backend {
-	return &Backend{LogID: logID, byID: map[string]*trillian.LogLeaf{}, tree: ref.NewTree(), rootNanos: nanos}
+	return &Backend{LogID: logID, byID: map[string]*trillian.LogLeaf{}, tree: ref.NewTree(), rootNanos: nanos, Roots: []Published{{0, nanos}}}
 }
 
 func cloneLeaf(l *trillian.LogLeaf) *trillian.LogLeaf { return proto.Clone(l).(*trillian.LogLeaf) }
@@ -105,6 +117,9 @@ func (b *Backend) Sequence(k int, nanos uint64, order []int) int {
 	b.rootSize = len(b.leaves)
 	b.rootNanos = nanos
 	b.revision++
+	b.seq++
+	b.Calls = append(b.Calls, Call{Seq: b.seq, Method: "Sequence", Req: &trillian.GetLeavesByRangeRequest{StartIndex: int64(b.rootSize), Count: int64(len(pick))}})
+	b.Roots = append(b.Roots, Published{Size: b.rootSize, Nanos: nanos})
 	return len(pick)
 }
 
@@ -143,6 +158,7 @@ func (b *Backend) InjectLeaf(value, extra []byte, nanos uint64, identity ...[]by
 	b.tree.AppendHash(h)
 	b.rootSize = len(b.leaves)
 	b.rootNanos = nanos
+	b.Roots = append(b.Roots, Published{Size: b.rootSize, Nanos: nanos})
 }
 
 // CallCount counts RPCs of a method ("" = all).
@@ -168,13 +184,14 @@ func (b *Backend) CallsSince(n int) []Call {
 // NumCalls is the number of recorded calls.
 func (b *Backend) NumCalls() int { b.mu.Lock(); defer b.mu.Unlock(); return len(b.Calls) }
 
-func (b *Backend) finish(method string, req, rsp proto.Message, err error) (proto.Message, error) {
+func (b *Backend) finish(ctx context.Context, method string, req, rsp proto.Message, err error) (proto.Message, error) {
 	b.seq++
 	seq := b.seq
 	if b.Intercept != nil {
 		rsp, err = b.Intercept(seq, method, req, rsp, err)
 	}
-	b.Calls = append(b.Calls, Call{Seq: seq, Method: method, Req: proto.Clone(req), Rsp: rsp, Err: err})
+	id, _ := ctx.Value(ReqIDKey{}).(string)
+	b.Calls = append(b.Calls, Call{Seq: seq, ReqID: id, Method: method, Req: proto.Clone(req), Rsp: rsp, Err: err})
 	return rsp, err
 }
 
@@ -214,7 +231,7 @@ func (b *Backend) QueueLeaf(ctx context.Context, in *trillian.QueueLeafRequest, 
 	if rsp != nil {
 		m = rsp
 	}
-	m, err = b.finish("QueueLeaf", in, m, err)
+	m, err = b.finish(ctx, "QueueLeaf", in, m, err)
 	if m == nil {
 		return nil, err
 	}
@@ -225,7 +242,7 @@ func (b *Backend) QueueLeaf(ctx context.Context, in *trillian.QueueLeafRequest, 
 func (b *Backend) GetLatestSignedLogRoot(ctx context.Context, in *trillian.GetLatestSignedLogRootRequest, _ ...grpc.CallOption) (*trillian.GetLatestSignedLogRootResponse, error) {
 	b.enter("GetLatestSignedLogRoot")
 	defer b.mu.Unlock()
-	m, err := b.finish("GetLatestSignedLogRoot", in, &trillian.GetLatestSignedLogRootResponse{SignedLogRoot: b.slr()}, nil)
+	m, err := b.finish(ctx, "GetLatestSignedLogRoot", in, &trillian.GetLatestSignedLogRootResponse{SignedLogRoot: b.slr()}, nil)
 	if m == nil {
 		return nil, err
 	}
@@ -255,7 +272,7 @@ func (b *Backend) GetConsistencyProof(ctx context.Context, in *trillian.GetConsi
 	if rsp != nil {
 		m = rsp
 	}
-	m, err = b.finish("GetConsistencyProof", in, m, err)
+	m, err = b.finish(ctx, "GetConsistencyProof", in, m, err)
 	if m == nil {
 		return nil, err
 	}
@@ -291,7 +308,7 @@ func (b *Backend) GetInclusionProofByHash(ctx context.Context, in *trillian.GetI
 	if rsp != nil {
 		m = rsp
 	}
-	m, err = b.finish("GetInclusionProofByHash", in, m, err)
+	m, err = b.finish(ctx, "GetInclusionProofByHash", in, m, err)
 	if m == nil {
 		return nil, err
 	}
@@ -319,7 +336,7 @@ func (b *Backend) GetLeavesByRange(ctx context.Context, in *trillian.GetLeavesBy
 	if rsp != nil {
 		m = rsp
 	}
-	m, err = b.finish("GetLeavesByRange", in, m, err)
+	m, err = b.finish(ctx, "GetLeavesByRange", in, m, err)
 	if m == nil {
 		return nil, err
 	}
@@ -354,7 +371,7 @@ func (b *Backend) GetEntryAndProof(ctx context.Context, in *trillian.GetEntryAnd
 	if rsp != nil {
 		m = rsp
 	}
-	m, err = b.finish("GetEntryAndProof", in, m, err)
+	m, err = b.finish(ctx, "GetEntryAndProof", in, m, err)
 	if m == nil {
 		return nil, err
 	}
